@@ -205,3 +205,36 @@ Theorem uploads_pages_complete : forall sorted max, usorted sorted -> Forall nam
 Proof.
   intros sorted max Hs Hn Hm. apply (pages_from (S (List.length sorted)) [] sorted "" "" max); try assumption; [left; split; reflexivity|lia].
 Qed.
+
+(* ---------- the page selection before the repair (2fe630b), kept for the record: the page began behind the FIRST upload whose key
+   equals the key marker and then skipped the uploads whose id is below the upload id marker, whatever their key *)
+Fixpoint lmu_loop_old (ups : list upl) (key_marker id_marker : string) (max : nat) (acc : list upl)
+  : res (list upl * bool * upl) :=
+  match ups with
+  | [] => Ok_ (acc, false, ("", ""))
+  | (key, id) :: r =>
+      if negb (String.eqb key_marker "") && negb (String.eqb id_marker "") && str_ltb id id_marker
+      then lmu_loop_old r key_marker id_marker max acc
+      else if Nat.eqb (List.length acc) max then
+        match rev acc with
+        | last :: _ => Ok_ (acc, true, last)
+        | [] => Panic_
+        end
+      else lmu_loop_old r key_marker id_marker max (acc ++ [(key, id)])
+  end.
+
+Definition list_uploads_old (sorted : list upl) (key_marker id_marker : string) (max : nat) : res (list upl * bool * upl) :=
+  match (if String.eqb key_marker "" then Some O else option_map S (find_key sorted key_marker O)) with
+  | None => Ok_ ([], false, ("", ""))
+  | Some st => if Nat.eqb max 0 then Ok_ ([], false, ("", "")) else lmu_loop_old (skipn st sorted) key_marker id_marker max []
+  end.
+
+(* three uploads of one key, one upload per page: the page behind (a, u2) is (a, u2) again, with itself as the next marker - a client
+   following the markers never finishes, and never sees (a, u3) *)
+Theorem old_page_selection_cycles :
+  let ups := [("a", "u1"); ("a", "u2"); ("a", "u3")] in
+  usorted ups /\
+  list_uploads_old ups "" "" 1 = Ok_ ([("a", "u1")], true, ("a", "u1")) /\
+  list_uploads_old ups "a" "u1" 1 = Ok_ ([("a", "u2")], true, ("a", "u2")) /\
+  list_uploads_old ups "a" "u2" 1 = Ok_ ([("a", "u2")], true, ("a", "u2")).
+Proof. vm_compute. repeat split; reflexivity. Qed.
